@@ -51,7 +51,15 @@ impl Parser {
                             .to_owned(),
                     )]);
                 }
-                break;
+
+                // an argument the signature has no parameter for
+                let plural = if idx == 1 { "" } else { "s" };
+
+                return Err(vec![new_err(
+                    child.as_span(),
+                    &input.user_data().get_source_file_name(),
+                    format!("this function's signature specifies {idx} parameter{plural}, but more arguments were supplied (Expected arguments: `({expected_parameters})`)"),
+                )]);
             }
 
             child_span = child.as_span();
